@@ -26,6 +26,11 @@ TEXT = {
    level_text='~1.6*10^5 generated (tree, configuration) cases per quick run and direction: every document written must decode per the configured encoding/BOM, be accepted by the independent parser and yield the same names, order, nesting, scalar values and attributes; pretty output must differ from compact only by the configured padding; every re-rendering of the same data by the independent emitter (white space, escapes / character references / CDATA, member order, numeric spelling, declaration, encoding, BOM; each first validated by the independent parser) must load to the same value from memory and from streams.',
    level_note=_NOTE),
 
+ 'C19': dict(engine='pbt', design_ref='DESIGN.md 5/C19',
+   technique='schedule-generating property-based testing under ThreadSanitizer: generated multi-thread operation schedules, happens-before race detection plus differential comparison with a sequential run',
+   level_text='~10^4 generated schedules per quick run (2..4 threads, 2..10 operations each, released together): ThreadSanitizer must report no data race in harness, library sources or header-only adapters, and every operation must return exactly what it returned when the same schedule ran sequentially; a failing schedule shrinks (fewer threads / operations) and replays from its choice sequence.',
+   level_note=_NOTE),
+
  'C20': dict(engine='pbt', design_ref='DESIGN.md 5/C20',
    technique='fault-injection property-based testing: generated scenarios with enumerated fault positions (truncation length, index of the failing operator new, byte at which a streambuf fails), every case in a forked child whose exit status is part of the oracle',
    level_text='~8*10^3 isolated cases per quick run, each enumerating one, a window of, or all fault positions of its scenario (about 10^5 injected faults): the caller must see a std::exception (or, for an absorbed allocation failure, exactly the fault-free result); the child must not call std::terminate, abort, trip ASan/UBSan, exceed its CPU budget or leak at exit; MessagePack must reject every strict prefix.',
